@@ -56,55 +56,73 @@ _F[Q + "put"].may_raise = {"Full@timeout": "block and timeout is not None"}
 _F[Q + "get"].raises = {"Empty": "not block and len(self.queue) == 0"}
 _F[Q + "get"].may_raise = {"Empty@timeout": "block and timeout is not None"}
 
-# ------------------------------------------------------------------ QueuePool
+# ------------------------------------------------------------------ QueuePool (monitor with interference)
+# Ghost accounting (DESIGN §5 C25, rewritten for interference):
+#   slots   = _ConnectionRecords in circulation            pending = outstanding claims of all threads
+#   mine    = outstanding claims of the current thread (thread-local: not changed by other threads)
+#   a claim is taken by a successful _inc_overflow (or by retiring a record on the Full path) and released by
+#   _create_connection succeeding or by _dec_overflow.
+# Monitor invariant, assumed after every interference point and PROVED before each one and at every exit:
+#   E:  slots + pending == pool_size + _overflow          L: _max_overflow == -1 or _overflow <= _max_overflow
+#   C:  0 <= mine <= pending
+# hence  slots <= pool_size + max_overflow  whatever the other threads do.
 P = "pool/impl.py::QueuePool."
-cls("QueuePool", fields={"_overflow": "int", "_max_overflow": "int", "_pool": "Queue", "_timeout": "v", "_overflow_lock": "v", "slots": "int"},
-    rep=["self._max_overflow == -1 or self._overflow <= self._max_overflow"],
+cls("QueuePool", fields={"_overflow": "int", "_max_overflow": "int", "_pool": "Queue", "_timeout": "v", "_overflow_lock": "v",
+                         "slots": "int", "pending": "int", "mine": "int"},
     methods={n: P + n for n in ["_inc_overflow", "_dec_overflow", "_do_get", "_do_return_conn", "checkedout", "overflow", "checkedin", "size"]})
 cls("_ConnectionRecord", fields={})
 
-fn(P + "_inc_overflow", cls="QueuePool", props=["C25"], returns="bool",
-   ensures=["(result and self._overflow == old(self._overflow) + 1 and (self._max_overflow == -1 or old(self._overflow) < self._max_overflow))"
-            " or (not result and self._overflow == old(self._overflow))"],
-   modifies=["self._overflow"])
-fn(P + "_dec_overflow", cls="QueuePool", props=["C25"], returns="bool",
-   ensures=["result", "self._overflow == old(self._overflow) - 1"], modifies=["self._overflow"])
-fn(P + "checkedout", cls="QueuePool", props=["C25"], returns="int",
-   callees={"self._pool.qsize": Q + "qsize"},
+G = ["self.slots + self.pending == self._pool.maxsize + self._overflow",
+     "self._max_overflow == -1 or self._overflow <= self._max_overflow",
+     "0 <= self.mine and self.mine <= self.pending",
+     "self._pool.maxsize >= 0"]
+MON = dict(havoc=["self._overflow", "self.slots", "self.pending", "contents(self._pool.queue)"], inv=G,
+           locks=["self._overflow_lock"], calls=["self._pool.get", "self._pool.put", "self._create_connection", "record.close"])
+GHOST = {"self._overflow += 1": ["self.pending += 1", "self.mine += 1"],
+         "self._overflow -= 1": ["self.pending -= 1", "self.mine -= 1"]}
+SHARED = ["self._overflow", "self.slots", "self.pending", "self.mine", "contents(self._pool.queue)"]
+
+fn(P + "_inc_overflow", cls="QueuePool", props=["C25"], returns="bool", monitor=MON, ghost_after=GHOST,
+   requires=G, ensures=G + ["self.mine == old(self.mine) + ite(result, 1, 0)"], modifies=SHARED)
+fn(P + "_dec_overflow", cls="QueuePool", props=["C25"], returns="bool", monitor=MON, ghost_after=GHOST,
+   requires=G + ["self.mine >= 1"], ensures=G + ["result", "self.mine == old(self.mine) - 1"], modifies=SHARED)
+fn(P + "checkedout", cls="QueuePool", props=["C25"], returns="int", callees={"self._pool.qsize": Q + "qsize"},
    ensures=["result == self._pool.maxsize - len(self._pool.queue) + self._overflow"], modifies=[])
 fn(P + "checkedin", cls="QueuePool", props=["C25"], returns="int", callees={"self._pool.qsize": Q + "qsize"},
    ensures=["result == len(self._pool.queue)"], modifies=[])
 
-# externals of the pool layer (assumed contracts, listed in evidence)
+# externals of the pool layer (assumed contracts, atomic ghost effects)
 fn("pool/base.py::Pool._create_connection", abstract=True, cls="QueuePool", params=["self"], returns="_ConnectionRecord", fresh_result=True,
-   modifies=["self.slots"], ensures=["self.slots == old(self.slots) + 1"],
+   requires=["self.mine >= 1"],
+   modifies=["self.slots", "self.pending", "self.mine"],
+   ensures=["self.slots == old(self.slots) + 1", "self.pending == old(self.pending) - 1", "self.mine == old(self.mine) - 1"],
    may_raise={"Exception": "True"},
-   notes="creates one _ConnectionRecord (ghost: slots+1) or raises with nothing created")
+   notes="creates one _ConnectionRecord: the caller's claim becomes a slot; or raises with nothing created and the claim still held")
 fn("pool/base.py::_ConnectionRecord.close", abstract=True, cls="_ConnectionRecord", params=["self", "pool"], returns="none",
-   modifies=["pool.slots"], ensures=["pool.slots == old(pool.slots) - 1"], may_raise={"Exception": "True"},
-   notes="record.close() on the Full path of _do_return_conn: the record is dropped, its slot is retired (ghost: slots-1), also when close() raises")
+   types={"pool": "QueuePool"},
+   modifies=["pool.slots", "pool.pending", "pool.mine"],
+   ensures=["pool.slots == old(pool.slots) - 1", "pool.pending == old(pool.pending) + 1", "pool.mine == old(pool.mine) + 1"],
+   notes="record.close() on the Full path of _do_return_conn: the record is dropped (its slot retired, the thread holds a claim that "
+         "_dec_overflow releases); _ConnectionRecord.close swallows driver errors")
 
-INV = "self.slots == self._pool.maxsize + self._overflow"
-fn(P + "_do_return_conn", cls="QueuePool", props=["C25"], returns="none",
+fn(P + "_do_return_conn", cls="QueuePool", props=["C25"], returns="none", monitor=MON,
    types={"record": "_ConnectionRecord"},
-   requires=[INV, "self._pool.maxsize >= 0"],
+   requires=G,
    callees={"self._pool.put": Q + "put", "self._dec_overflow": P + "_dec_overflow",
             "record.close": dict(fn="pool/base.py::_ConnectionRecord.close", recv="record", args=["self"])},
-   ensures=[INV, "len(self._pool.queue) <= self._pool.maxsize or self._pool.maxsize == 0",
-            # the record is idle in the queue afterwards, or was retired
-            "(len(self._pool.queue) > 0 and contents(self._pool.queue)[-1] is record and self.slots == old(self.slots)) or self.slots == old(self.slots) - 1"],
-   may_raise={"Exception": "True"},
-   modifies=["contents(self._pool.queue)", "self._overflow", "self.slots"])
+   ensures=G + ["self.mine == old(self.mine)"],
+   may_raise={"Exception": "True"}, exc_ensures={"Exception": G + ["self.mine == old(self.mine)"]},
+   modifies=SHARED)
 
-fn(P + "_do_get", cls="QueuePool", props=["C25"], returns="_ConnectionRecord",
+fn(P + "_do_get", cls="QueuePool", props=["C25"], returns="_ConnectionRecord", monitor=MON,
    types={"use_overflow": "bool", "wait": "bool"},
-   requires=[INV, "self._pool.maxsize >= 0"],
+   requires=G,
    callees={"self._pool.get": Q + "get", "self._do_get": P + "_do_get", "self._inc_overflow": P + "_inc_overflow",
             "self._dec_overflow": P + "_dec_overflow", "self._create_connection": "pool/base.py::Pool._create_connection",
             "self.size": "havoc:int", "self.overflow": "havoc:int"},
-   ensures=[INV],
+   ensures=G + ["self.mine == old(self.mine)"],
    may_raise={"TimeoutError": "True", "Exception": "True"},
-   # the slot accounting also holds when the creator fails (inc then dec) or the pool times out
-   exc_ensures={"Exception": [INV, "self._max_overflow == -1 or self._overflow <= self._max_overflow"]},
-   modifies=["contents(self._pool.queue)", "self._overflow", "self.slots"],
-   notes="partial correctness: the recursive calls are checked against this same contract; termination under contention is not claimed")
+   # the accounting also holds when the creator fails (claim released by _dec_overflow) or the pool times out
+   exc_ensures={"Exception": G + ["self.mine == old(self.mine)"]},
+   modifies=SHARED,
+   notes="partial correctness: the recursive calls are checked against this same contract")
